@@ -623,27 +623,27 @@ class ChebychevHelper(SpectralHelper1D):
         kwargs['norm'] = kwargs.get('norm', 'backward')
         kwargs['overwrite_x'] = kwargs.get('overwrite_x', False)
 
+        _u = u.copy()
         for axis in axes:
 
-            if self.N == u.shape[axis]:
-                _u = u.copy()
-            else:
+            if self.N != u.shape[axis]:
                 # mpi4py-fft implements padding only for FFT, where the frequencies are sorted such that the zeros are
                 # added in the middle rather than the end. We need to resort this here and put the padding in the end.
                 N = self.N
-                _u = self.xp.zeros_like(u)
+                _v = _u
+                _u = self.xp.zeros_like(_v)
 
                 # copy first half
                 su = [slice(None)] * u.ndim
                 su[axis] = slice(0, N // 2 + 1)
-                _u[tuple(su)] = u[tuple(su)]
+                _u[tuple(su)] = _v[tuple(su)]
 
                 # copy second half
                 su = [slice(None)] * u.ndim
                 su[axis] = slice(-(N // 2), None)
                 s_u = [slice(None)] * u.ndim
                 s_u[axis] = slice(N // 2, N // 2 + (N // 2))
-                _u[tuple(s_u)] = u[tuple(su)]
+                _u[tuple(s_u)] = _v[tuple(su)]
 
                 if N % 2 == 0:
                     su = [slice(None)] * u.ndim
